@@ -11,7 +11,7 @@ use serde_json::{json, Value};
 use std::collections::{BTreeMap, BTreeSet};
 
 /// (source text with `NAME` placeholder, is a command?)
-pub const ITEMS: [(&str, bool); 14] = [
+pub const ITEMS: [(&str, bool); 15] = [
     ("#[tauri::command]\npub fn NAME() -> i32 { 1 }\n", true),
     ("#[command]\nfn NAME() {}\n", true),
     ("#[tauri::command(async)]\npub async fn NAME(x: i32) -> String { String::new() }\n", true),
@@ -25,6 +25,7 @@ pub const ITEMS: [(&str, bool); 14] = [
     ("pub fn NAME() -> i32 { 5 }\n", false),
     ("#[cfg_attr(feature = \"x\", tauri::command)]\npub fn NAME() -> i32 { 6 }\n", false),
     ("pub const C_NAME: &str = \"#[tauri::command] fn fake() {}\";\nmacro_rules! m_NAME { () => { #[tauri::command] fn NAME() {} }; }\n", false),
+    ("#[tauri::command]\npub fn NAME(on_event: tauri::ipc::Channel<String>) { let _ = on_event; }\n", true),
     ("#[tauri::commands]\npub fn NAME() -> i32 { 7 }\n#[tauri::ipc::command]\npub fn NAME_b() -> i32 { 8 }\n#[command::tauri]\npub fn NAME_c() -> i32 { 9 }\n", false),
 ];
 
@@ -58,6 +59,10 @@ pub struct Case {
     /// then compiles is C02's business)
     #[serde(default)]
     pub same_name: bool,
+    /// the project directory itself is called like an excluded directory (`apps/target`,
+    /// `apps/.git`): the exclusion concerns directories below the project path, not the path
+    #[serde(default)]
+    pub project_dir: Option<String>,
 }
 
 pub const SAME_NAME: &str = "get_status";
@@ -167,12 +172,12 @@ fn observe(files: &BTreeMap<String, String>) -> Result<Observed, String> {
 }
 
 fn run_case_project(case: &Case, project: &Project) -> (run::LibRun, bool) {
-    if !case.under_target_dir {
+    if !case.under_target_dir && case.project_dir.is_none() {
         return (run_lib_default(project, &Cfg::mode(case.zod)), true);
     }
-    // project placed at <sandbox>/target/app
+    // project placed at <sandbox>/target/app (or at the directory the case names)
     let sb = Sandbox::new();
-    let proj_dir = sb.path("target/app");
+    let proj_dir = sb.path(case.project_dir.as_deref().unwrap_or("target/app"));
     let out_dir = sb.path("out");
     project.write_to(&proj_dir).unwrap();
     let gc = Cfg::mode(case.zod).to_generate_config(&proj_dir, &out_dir);
@@ -343,28 +348,37 @@ pub fn run(tier: Tier) -> CheckResult {
                 many: 0,
                 same_camel: false,
                 same_name: false,
+                project_dir: None,
             });
         }
     }
     // two commands whose TypeScript names coincide: both keep their wrapper (that the two wrappers
     // then share a name is C02's recorded finding)
     for zod in [false, true] {
-        cases.push(Case { files: vec![], decoy_target: false, decoy_git: false, decoy_txt: false, unparsable: false, under_target_dir: false, symlinked: None, zod, many: 0, same_camel: true, same_name: false });
-        cases.push(Case { files: vec![], decoy_target: false, decoy_git: false, decoy_txt: false, unparsable: false, under_target_dir: false, symlinked: None, zod, many: 0, same_camel: false, same_name: true });
-        cases.push(Case { files: vec![(0, vec![0, 2]), (3, vec![1])], decoy_target: false, decoy_git: true, decoy_txt: false, unparsable: true, under_target_dir: false, symlinked: None, zod, many: 2, same_camel: true, same_name: true });
-        cases.push(Case { files: vec![(0, vec![0, 2]), (1, vec![1])], decoy_target: true, decoy_git: false, decoy_txt: false, unparsable: false, under_target_dir: false, symlinked: None, zod, many: 3, same_camel: true, same_name: false });
+        cases.push(Case { files: vec![], decoy_target: false, decoy_git: false, decoy_txt: false, unparsable: false, under_target_dir: false, symlinked: None, zod, many: 0, same_camel: true, same_name: false, project_dir: None });
+        cases.push(Case { files: vec![], decoy_target: false, decoy_git: false, decoy_txt: false, unparsable: false, under_target_dir: false, symlinked: None, zod, many: 0, same_camel: false, same_name: true, project_dir: None });
+        cases.push(Case { files: vec![(0, vec![0, 2]), (3, vec![1])], decoy_target: false, decoy_git: true, decoy_txt: false, unparsable: true, under_target_dir: false, symlinked: None, zod, many: 2, same_camel: true, same_name: true, project_dir: None });
+        cases.push(Case { files: vec![(0, vec![0, 2]), (1, vec![1])], decoy_target: true, decoy_git: false, decoy_txt: false, unparsable: false, under_target_dir: false, symlinked: None, zod, many: 3, same_camel: true, same_name: false, project_dir: None });
     }
     // many source files: every count from 5 to 40 (quick) / 96 (thorough), one command per file, alone
     // and next to a two-file layout with decoys
     for many in 5..=(if tier == Tier::Quick { 40 } else { 96 }) {
         for zod in [false, true] {
-            cases.push(Case { files: vec![], decoy_target: false, decoy_git: false, decoy_txt: false, unparsable: false, under_target_dir: false, symlinked: None, zod, many, same_camel: false, same_name: false });
+            cases.push(Case { files: vec![], decoy_target: false, decoy_git: false, decoy_txt: false, unparsable: false, under_target_dir: false, symlinked: None, zod, many, same_camel: false, same_name: false, project_dir: None });
         }
-        cases.push(Case { files: vec![(0, vec![0, 7]), (2, vec![1])], decoy_target: true, decoy_git: true, decoy_txt: true, unparsable: many % 2 == 0, under_target_dir: false, symlinked: None, zod: many % 2 == 1, many, same_camel: many % 5 == 0, same_name: many % 3 == 0 });
+        cases.push(Case { files: vec![(0, vec![0, 7]), (2, vec![1])], decoy_target: true, decoy_git: true, decoy_txt: true, unparsable: many % 2 == 0, under_target_dir: false, symlinked: None, zod: many % 2 == 1, many, same_camel: many % 5 == 0, same_name: many % 3 == 0, project_dir: None });
     }
     // the project itself below a directory named target
     for l in layouts.iter().filter(|l| l.len() == 1 && l[0].1.len() == 1).take(8) {
-        cases.push(Case { files: l.clone(), decoy_target: false, decoy_git: false, decoy_txt: false, unparsable: false, under_target_dir: true, symlinked: None, zod: false, many: 0, same_camel: false, same_name: false });
+        cases.push(Case { files: l.clone(), decoy_target: false, decoy_git: false, decoy_txt: false, unparsable: false, under_target_dir: true, symlinked: None, zod: false, many: 0, same_camel: false, same_name: false, project_dir: None });
+    }
+    // the project directory itself called like an excluded directory, with decoys below it
+    for dir in ["apps/target", "apps/.git", "target", ".git/target"] {
+        for l in layouts.iter().filter(|l| l.len() == 1 && l[0].1.len() == 1).take(8) {
+            for zod in [false, true] {
+                cases.push(Case { files: l.clone(), decoy_target: true, decoy_git: true, decoy_txt: false, unparsable: false, under_target_dir: false, symlinked: None, zod, many: 2, same_camel: false, same_name: false, project_dir: Some(dir.to_string()) });
+            }
+        }
     }
     let results: Vec<Option<(Vec<Violation>, bool, Option<String>)>> = cases.par_iter().map(|c| if deadline.passed() { None } else { Some(eval(c)) }).collect();
     let mut evaluations = 0u64;
